@@ -47,7 +47,7 @@ const (
 	AppMessage = "short and stout"
 )
 
-var OpTimeout = tscale.D(5 * time.Second)
+var OpTimeout = tscale.D(3 * time.Second)
 
 // Payloads are the bytes of one call.
 type Payloads struct {
@@ -150,7 +150,9 @@ func (sc *ServerCall) Loop(ops ServerOps) ([]byte, status.Status) {
 		case "sendend":
 			sc.reps <- reply{st: ops.SendEnd()}
 		case "next":
+			entered2 := false
 			st := ops.Next(func(req2 []byte) ([]byte, status.Status) {
+				entered2 = true
 				sc.reps <- reply{data: append([]byte(nil), req2...), st: status.OK} // answers "next": the inner method was entered
 				for {
 					c2 := <-sc.cmds
@@ -163,6 +165,10 @@ func (sc *ServerCall) Loop(ops ServerOps) ([]byte, status.Status) {
 				}
 			})
 			sc.NextSt, sc.NextDone = st, true
+			if !entered2 {
+				// the hand-over came back without the subservice's method having run
+				sc.reps <- reply{st: status.Errorf("not-entered: the subservice returned %v without entering its method", st)}
+			}
 		case "return":
 			sc.reps <- reply{st: status.OK}
 			return outcomeOf(c)
@@ -226,9 +232,13 @@ func (rt *RT) Run(s *Script, method string, p Payloads, cl ClientSide, found fun
 	callc := make(chan cres, 1)
 	var sc *ServerCall
 	freed, unwound := false, false
+	returned := false // the handler was told to return
 	defer func() {
 		if !blocking && !freed {
 			safely(func() { cl.Free() })
+		}
+		if sc != nil && !returned {
+			go sc.do(command{op: "return", outcome: "app"}) // a script cut short: let the handler go
 		}
 	}()
 	bad := func(k int, sig, f string, a ...any) {
@@ -363,7 +373,10 @@ func (rt *RT) Run(s *Script, method string, p Payloads, cl ClientSide, found fun
 			continue // the panic of the subservice's method has unwound the outer method as well
 		}
 		if step.Op == "return2" && step.Expect == "panic" {
-			unwound = true
+			unwound, returned = true, true
+		}
+		if step.Op == "return" {
+			returned = true
 		}
 		c := command{op: step.Op}
 		switch step.Op {
@@ -385,6 +398,7 @@ func (rt *RT) Run(s *Script, method string, p Payloads, cl ClientSide, found fun
 		case "next":
 			if !r.st.OK() || !bytes.Equal(r.data, p.Req2) {
 				bad(k, "request2-bytes", "the subservice method got %v (%v), the caller sent %v", r.data, r.st, p.Req2)
+				return
 			}
 		case "recv":
 			if !r.st.OK() || !bytes.Equal(r.data, p.In(step.N)) {
